@@ -1,5 +1,6 @@
 """C19 — classical Ising sampler: Boltzmann law of the reported energy is stationary ({spin+edge} move
 set), moves keep the number of spins, reported energy = direct sum over edges and biases."""
+from checks import api_cov
 LEAN_TARGETS = ["QmcProps.C19", "drv_c19"]
 BINS = ["c19"]
 
@@ -79,4 +80,5 @@ def main(ck):
             "kernel extraction in harness/src/bin/c19.rs: the kind of each RNG draw (gen_range(0..n) vs threshold draw) is recognised from the behaviour of the real code on a grid of 129 probe words using the rand 0.8.8 acceptance zone; ambiguous nodes abstain (counted in input_distribution.kern_abstained)",
             "ergodicity / convergence ('after equilibration') is not a statement about this code and is not proved",
         ]
+    api_cov.run(ck, "c19")   # otherwise unexercised public API, model-free oracles of this property
     return ck.finish(RULE)
